@@ -289,7 +289,7 @@ CHECKS['C14']['level_note'] += ' A second job covers paths of up to 513 componen
 
 # ---- the same harnesses entered through ninja.cc's real_main (flag parsing, NinjaMain, RebuildManifest loop, RunBuild, real StatusPrinter)
 SCENARIOS.append('regen_manifest')     # 29
-SCENARIOS.append('dead_outputs'); SCENARIOS.append('tools_mix'); SCENARIOS.append('generator_runs_restat'); SCENARIOS.append('dyndep_after_order_only'); SCENARIOS.append('console_first'); SCENARIOS.append('restat_consumer'); SCENARIOS.append('include_switch'); SCENARIOS.append('dyndep_checked_in')    # 30 .. 37
+SCENARIOS.append('dead_outputs'); SCENARIOS.append('tools_mix'); SCENARIOS.append('generator_runs_restat'); SCENARIOS.append('dyndep_after_order_only'); SCENARIOS.append('console_first'); SCENARIOS.append('restat_consumer'); SCENARIOS.append('include_switch'); SCENARIOS.append('dyndep_checked_in'); SCENARIOS.append('dyndep_rule_level_restat')    # 30 .. 38
 def _via_main(jobs, thorough_only=False):
     out = []
     for j in jobs:
@@ -349,6 +349,17 @@ CHECKS['C13']['jobs'] += _mode_jobs('MODE_DEPFILE_BYTES', [3], suffix='_depfile_
 CHECKS['C13']['jobs'] += _mode_jobs('MODE_DEPFILE_BYTES', [1], suffix='_depfile_bytes', reach=('arbitrary', 'mutated', 'accepted', 'rejected'), quick_defs=['VERIF_N=1'], thorough_defs=['VERIF_N=2'],
     bounds='the same with 0..1 (thorough: 2) arbitrary bytes for a deps=gcc statement (Builder::ExtractDeps, deps log)')
 CHECKS['C13']['level_text'] += ' Two pipeline jobs feed arbitrary depfile bytes through the consumers of the parsed depfile (Builder::ExtractDeps, ImplicitDepLoader::LoadDepFile) inside whole builds.'
+
+def _midrun(jobs):
+    out = []
+    for j in jobs:
+        q = dict(j); q['name'] = j['name'] + '_midrun'; q['defines'] = list(j['defines']) + ['MIDRUN_EDITS']; q['reach'] = list(j['reach']) + ['edited-while-running']
+        for t in ('quick', 'thorough'): q[t] = dict(j[t], bounds=j[t]['bounds'] + '; in all but the last invocation the user may save one source while a (non-restat, non-generator) command that has read it is still running')
+        out.append(q)
+    return out
+CHECKS['C01']['jobs'] += _midrun(_hist_jobs('CHECK_C01', 2, 3, [0, 3, 8]))
+CHECKS['C11']['jobs'] += _midrun(_hist_jobs('CHECK_C11', 2, 2, [38], reach=('built',)))
+CHECKS['C01']['level_text'] += ' Further jobs let the user save a source while a command that has already read it is still running; the build after that must pick the edit up (restat and generator rules excepted).'
 
 # ---- the real process layer (RealCommandRunner, SubprocessSet, Subprocess, PosixJobserverClient) over the modelled operating system of harness/osmodel.h
 _OS_WRAP = ['pipe', 'close', 'read', 'write', 'open', 'fstat', 'sigemptyset', 'sigaddset', 'sigismember', 'sigprocmask', 'sigpending', 'sigaction', 'posix_spawn_file_actions_init', 'posix_spawn_file_actions_destroy',
